@@ -27,7 +27,7 @@ def generate(streams, tier):
         config = {"bn": W.gen_bn_config(streams, world)}
     else:
         world = W.gen_mn(streams, max_n=7 if big else 6, min_n=2, max_joint=16384 if big else 2048, connected=connected,
-                         dup_rate=(r.choice([0.0, 0.3, 0.6]) if kind == "mn" else 0.0))
+                         dup_rate=(r.choice([0.0, 0.3, 0.6]) if kind == "mn" else 0.0), scale_rate=0.25, hub_rate=0.25)
         ri = streams.s("insertion")
         config = {"factor_order": shuffled(ri, range(len(world["factors"]))), "edge_order": shuffled(ri, world["edges"]),
                   "node_order": shuffled(ri, range(world["n"]))}
